@@ -299,11 +299,12 @@ def _r2(ctx, pkg):
                 else:
                     out.append(e)
             return out
-        if v[0] == "binop" and v[1] == "Add":
+        if v[0] == "binop" and v[1] in ("Add", "BitOr"):          # list + list, set | set
             a, b = members(v[2]), members(v[3])
             return a + b if a is not None and b is not None else None
-        if v[0] == "call" and v[1] in (("global", "list"), ("global", "tuple"), ("global", "sorted")) and len(v[2]) == 1 and not v[3]:
-            return [("star", keys_of(v[2][0]))]
+        if v[0] == "call" and v[1] in (("global", "list"), ("global", "tuple"), ("global", "sorted"), ("global", "set"), ("global", "frozenset")) and len(v[2]) == 1 and not v[3]:
+            inner = members(v[2][0]) if v[2][0][0] in ("list", "tuple", "set", "binop") else None
+            return inner if inner is not None else [("star", keys_of(v[2][0]))]
         return None
 
     def keys_of(d):
